@@ -622,6 +622,7 @@ func (t *Trie) Find(prefix, from []byte, maxNum int) ([]storage.KeyValue, error)
 		count int
 	)
 	b := NewBillet(t.root.Hash(), t.mode, DummySTTempStoragePrefix, t.Store)
+	b.keepNodes = true // the nodes are the trie's own and may be not flushed yet
 	process := func(pathToNode []byte, node Node, _ []byte) bool {
 		if leaf, ok := node.(*LeafNode); ok {
 			if from == nil || !bytes.Equal(pathToNode, from) { // (*Billet).traverse includes `from` path into result if so. Need to filter out manually.
